@@ -46,7 +46,9 @@ func (m EntitiesDescriptor) MarshalXML(e *xml.Encoder, _ xml.StartElement) error
 		vu := RelaxedTime(*m.ValidUntil)
 		validUntil = &vu
 	}
-	if m.CacheDuration != nil {
+	if m.CacheDuration != nil && *m.CacheDuration != 0 {
+		// A zero Duration has no text form (MarshalText returns nil); writing
+		// cacheDuration="" would produce a document UnmarshalXML rejects.
 		cd := Duration(*m.CacheDuration)
 		cacheDuration = &cd
 	}
